@@ -272,7 +272,7 @@ func c15Gen(r *Rng, n int) []string {
 		"<a>x</a>", "<a x=\"1\"><b>t</b><b/></a>", "<?xml version=\"1.0\"?><r><!--c--><a>1</a>t</r>", "<a><![CDATA[x]]></a>",
 		"</a>", "<a></b>", "<a>", "<a x=1>", "<a x=\"1\" x=\"2\"/>", "lead<a/>", "<!-- c --><a/>", "<?pi x?><a/>", "<!DOCTYPE d><a/>", "<a/><b/>",
 		"{\"a\":1}", "{\"a\":{\"b\":[1,2,{\"c\":\"}\"}]}}", "}", "{", "{\"a\":\"x\\\"}", "[1,2]", "null", "{}{}", "\"", "{\"a\":1}}", " ", "",
-		"<a>\xff\xfe</a>", "{\"a\":\"\xc3\"}", "<a xmlns:b=\"u\"><b:c b:d=\"1\"/></a>", "<stream:stream to=\"x\">",
+		"<a>\xff\xfe</a>", "\xff\xfe\x00", "\x00\x00\xfe", "\xff\xfe", "\xfe\xff", "\xff\xfe\x00\x00", "\x00\x00\xfe\xff", "\xef\xbb\xbf", "\xef\xbb", "\xef\xbb\xbf<a/>", "\xef\xbb\xbf{\"a\":1}", "\xff", "\x00", "{\"a\":\"\xc3\"}", "<a xmlns:b=\"u\"><b:c b:d=\"1\"/></a>", "<stream:stream to=\"x\">",
 	}
 	var ops []string
 	for len(ops) < n {
